@@ -1,5 +1,6 @@
 import VelaVerif.Lemmas.Scaling
 import VelaVerif.Lemmas.ScalingRat
+import VelaVerif.Lemmas.ScalingEqual
 /-!
 # C09 — quantised multipliers reproduce the real scale to reference precision
 
@@ -619,5 +620,127 @@ example :
       ⟨.py, .fin false 13421773 (-27)⟩ ⟨.py, .fin false 1 0⟩ ⟨.py, .fin false 1 0⟩ = .ok (1717986944, 34) := by decide
 -- the float32 all-ones significand is *not* in the 2^31 corner, the double below 1.0 is
 example : sigQ31 ((2 ^ 24 - 1) * 2 ^ 29) = 2 ^ 31 - 128 ∧ sigQ31 (2 ^ 53 - 1) = 2 ^ 31 := by decide
+
+/-! ## the "same quantisation" predicate (`tensor.py`: `is_scaling_equal`, `check_quantized_tens_scaling_equal`)
+
+When the predicate answers "equal" the compiler emits **no** multiplier for `s_in / s_out` (a RELU is packed
+into the producer's pass, a LeakyRelu / MEAN / PAD keeps or drops its rescale, …), so the answer is only
+admissible for scales that denote the same number.  Model: `Model/ScalingEqual.lean`, Spec:
+`Spec/ScalingEqual.lean` (independent), reading of the model's values by the Spec: `Spec/ScalingEqualView.lean`. -/
+section ScalingEqual
+open VelaVerif.ScalingEqual VelaVerif.Spec.ScalingEqual
+
+/-- `is_scaling_equal` answers `True` **iff** `other` is a quantisation and, for the scale and for the zero
+    point, both are absent or both hold the same numbers (exactly: as real numbers, NaN never) in the same
+    shape — or in two one-element arrays of any rank.  For every well-formed input: any rank, any number of
+    elements, any float32 / float64 / integer value including ±0, ±inf, NaN, any exponent. -/
+theorem scaling_equal_iff (a b : VelaVerif.ScalingEqual.Quant) (ha : Quant.Ok a) (hb : Quant.Ok b) :
+    (isScalingEqual a (some b) = true ↔
+      SameUpToUnitShape (ofQVal a.scale) (ofQVal b.scale) ∧
+      SameUpToUnitShape (ofQVal a.zeroPoint) (ofQVal b.zeroPoint)) ∧
+    isScalingEqual a none = false := by
+  refine ⟨?_, rfl⟩
+  simp only [isScalingEqual, Bool.and_eq_true]
+  rw [equalVal_iff _ _ ha.1 hb.1, equalVal_iff _ _ ha.2 hb.2]
+
+/-- … hence the model's verdict meets the Spec applied to the implementation's verdicts: "equal" only for
+    quantisations that denote the same numbers, and always for the same numbers in the same shape. -/
+theorem scaling_equal_meets_spec (a b : VelaVerif.ScalingEqual.Quant) (ha : Quant.Ok a) (hb : Quant.Ok b) :
+    EqualOk (ofQuant a) (ofQuant b) (isScalingEqual a (some b)) := by
+  have h := (scaling_equal_iff a b ha hb).1
+  have flat : ∀ x y : Option Attr, SameUpToUnitShape x y → SameFlat x y := by
+    intro x y; cases x <;> cases y <;> simp only [SameUpToUnitShape, SameFlat] <;> intro hh
+    · trivial
+    · exact hh
+    · exact hh
+    · exact hh.2
+  have shaped : ∀ x y : Option Attr, SameShaped x y → SameUpToUnitShape x y := by
+    intro x y; cases x <;> cases y <;> simp only [SameUpToUnitShape, SameShaped] <;> intro hh
+    · trivial
+    · exact hh
+    · exact hh
+    · exact ⟨Or.inr hh.1, hh.2⟩
+  constructor
+  · intro hv
+    have := h.1 hv
+    exact ⟨flat _ _ this.1, flat _ _ this.2⟩
+  · intro hs
+    exact h.2 ⟨shaped _ _ hs.1, shaped _ _ hs.2⟩
+
+/-- Scalar scales as the harness and `math.frexp` present them (`2^52 ≤ m < 2^53`): the verdict is "equal"
+    iff sign, significand and exponent are identical — one unit in the last place of a float32 or of a double
+    apart is "different" — and the zero points are equal. -/
+theorem scaling_equal_scalar_bit_identical (n1 n2 : Bool) (m1 m2 : Nat) (e1 e2 : Int) (z1 z2 : VelaVerif.ScalingEqual.QVal)
+    (h1 : 2 ^ 52 ≤ m1 ∧ m1 < 2 ^ 53) (h2 : 2 ^ 52 ≤ m2 ∧ m2 < 2 ^ 53) :
+    isScalingEqual ⟨.arr ⟨[], [.fin n1 m1 e1]⟩, z1⟩ (some ⟨.arr ⟨[], [.fin n2 m2 e2]⟩, z2⟩) = true ↔
+      (n1 = n2 ∧ m1 = m2 ∧ e1 = e2) ∧ equalVal z1 z2 = true := by
+  simp only [isScalingEqual, Bool.and_eq_true]
+  have : equalVal (.arr ⟨[], [.fin n1 m1 e1]⟩) (.arr ⟨[], [.fin n2 m2 e2]⟩) = dblEq (.fin n1 m1 e1) (.fin n2 m2 e2) := by
+    simp [equalVal, NArr.size]
+  rw [this, dblEq_norm_iff n1 n2 m1 m2 e1 e2 h1 h2]
+
+/-- Over the rationals: positive scalar scales judged "equal" have quotient exactly 1, so leaving out the
+    requantisation `s_in / s_out` is exact. -/
+theorem scaling_equal_quotient_one (m1 m2 : Nat) (e1 e2 : Int) (z1 z2 : VelaVerif.ScalingEqual.QVal)
+    (h1 : 0 < m1) (h2 : 0 < m2)
+    (h : isScalingEqual ⟨.arr ⟨[], [.fin false m1 e1]⟩, z1⟩ (some ⟨.arr ⟨[], [.fin false m2 e2]⟩, z2⟩) = true) :
+    ((m1 : ℚ) * (2 : ℚ) ^ e1) / ((m2 : ℚ) * (2 : ℚ) ^ e2) = 1 := by
+  simp only [isScalingEqual, Bool.and_eq_true] at h
+  have hv : equalVal (.arr ⟨[], [.fin false m1 e1]⟩) (.arr ⟨[], [.fin false m2 e2]⟩) = dblEq (.fin false m1 e1) (.fin false m2 e2) := by
+    simp [equalVal, NArr.size]
+  rw [hv] at h
+  have hd := (dblEq_iff _ _ (show DblOk (.fin false m1 e1) from h1) (show DblOk (.fin false m2 e2) from h2)).1 h.1
+  simp only [ofDbl, Val.Same, Bool.false_eq_true, if_false] at hd
+  have hq := (dyEq_iff_rat _ _ _ _).1 hd
+  push_cast at hq
+  have hpos : (0 : ℚ) < (m2 : ℚ) * (2 : ℚ) ^ e2 := by
+    have : (0 : ℚ) < (m2 : ℚ) := by exact_mod_cast h2
+    positivity
+  rw [hq]
+  exact div_self (ne_of_gt hpos)
+
+/-- `check_quantized_tens_scaling_equal`: both tensors carry a quantisation with scale and zero point, and
+    `is_scaling_equal` holds.  (The data-type test of `is_quantized` holds for every type, see
+    `ScalingEqual.intTypeTest`; the tensor-level verdict is therefore never "equal" for quantisations that
+    `is_scaling_equal` separates.) -/
+theorem check_tens_scaling_equal_iff (a b : Tens) :
+    checkQuantizedTensScalingEqual a b = true ↔
+      ∃ qa qb, a.quant = some qa ∧ b.quant = some qb ∧
+        qa.isValid = true ∧ qb.isValid = true ∧ isScalingEqual qa (some qb) = true := by
+  unfold checkQuantizedTensScalingEqual Tens.isQuantized intTypeTest
+  cases ha : a.quant <;> cases hb : b.quant <;> simp [Bool.and_eq_true]
+  tauto
+
+-- non-vacuity: the two scales of the recorded seeded change (float32, 51 units in the last place = 4·10^-6
+-- apart) are different, also one float32 step and one double step apart; bit-identical ones are equal
+example :
+    isScalingEqual ⟨.arr ⟨[], [.fin false 6781891336208384 (-57)]⟩, .arr ⟨[], [.fin true (2 ^ 59) (-52)]⟩⟩
+      (some ⟨.arr ⟨[], [.fin false 6781918716624896 (-57)]⟩, .arr ⟨[], [.fin true (2 ^ 59) (-52)]⟩⟩) = false ∧
+    isScalingEqual ⟨.arr ⟨[], [.fin false 6781891336208384 (-57)]⟩, .arr ⟨[], [.zero false]⟩⟩
+      (some ⟨.arr ⟨[], [.fin false 6781891873079296 (-57)]⟩, .arr ⟨[], [.zero false]⟩⟩) = false ∧
+    isScalingEqual ⟨.arr ⟨[], [.fin false 6781891336208384 (-57)]⟩, .arr ⟨[], [.zero false]⟩⟩
+      (some ⟨.arr ⟨[], [.fin false 6781891336208385 (-57)]⟩, .arr ⟨[], [.zero false]⟩⟩) = false ∧
+    isScalingEqual ⟨.arr ⟨[], [.fin false 6781891336208384 (-57)]⟩, .arr ⟨[], [.zero false]⟩⟩
+      (some ⟨.arr ⟨[], [.fin false 6781891336208384 (-57)]⟩, .arr ⟨[], [.zero true]⟩⟩) = true := by decide
+-- per-axis arrays: same shape and numbers → equal; a scalar against a one-element array → equal; one element
+-- one step apart, another shape, or a different zero point → different; an unnormalised significand denotes
+-- the same number (3·2^-5 = 6·2^-6)
+example :
+    isScalingEqual ⟨.arr ⟨[2], [.fin false 3 (-5), .fin false 5 (-7)]⟩, .arr ⟨[], [.zero false]⟩⟩
+      (some ⟨.arr ⟨[2], [.fin false 6 (-6), .fin false 5 (-7)]⟩, .arr ⟨[], [.zero false]⟩⟩) = true ∧
+    isScalingEqual ⟨.arr ⟨[], [.fin false 3 (-5)]⟩, .arr ⟨[], [.zero false]⟩⟩
+      (some ⟨.arr ⟨[1, 1], [.fin false 3 (-5)]⟩, .arr ⟨[1], [.zero false]⟩⟩) = true ∧
+    isScalingEqual ⟨.arr ⟨[2], [.fin false 3 (-5), .fin false 5 (-7)]⟩, .arr ⟨[], [.zero false]⟩⟩
+      (some ⟨.arr ⟨[2], [.fin false 3 (-5), .fin false (5 * 2 ^ 50 + 1) (-57)]⟩, .arr ⟨[], [.zero false]⟩⟩) = false ∧
+    isScalingEqual ⟨.arr ⟨[2], [.fin false 3 (-5), .fin false 5 (-7)]⟩, .arr ⟨[], [.zero false]⟩⟩
+      (some ⟨.arr ⟨[1, 2], [.fin false 3 (-5), .fin false 5 (-7)]⟩, .arr ⟨[], [.zero false]⟩⟩) = false ∧
+    isScalingEqual ⟨.arr ⟨[], [.fin false 3 (-5)]⟩, .arr ⟨[], [.zero false]⟩⟩
+      (some ⟨.arr ⟨[], [.fin false 3 (-5)]⟩, .arr ⟨[], [.fin false 1 0]⟩⟩) = false ∧
+    isScalingEqual ⟨.none, .none⟩ (some ⟨.none, .none⟩) = true ∧
+    Quant.Ok ⟨.arr ⟨[2], [.fin false 3 (-5), .fin false 5 (-7)]⟩, .arr ⟨[], [.zero false]⟩⟩ := by
+  refine ⟨by decide, by decide, by decide, by decide, by decide, by decide, ?_⟩
+  refine ⟨⟨by decide, ?_⟩, ⟨by decide, ?_⟩⟩ <;> intro x hx <;> simp at hx <;> rcases hx with rfl | rfl <;> simp [DblOk]
+
+end ScalingEqual
 
 end VelaVerif.Props.C09
